@@ -7,6 +7,21 @@ BASELINE = "cd /repo && /venv/bin/python -m pytest -ra -q -p no:cacheprovider --
 
 # id -> (level category, engine, technique, level text, level note, design ref)
 CLAIMS = {
+    "C19": ("exploration", "Render,Trace_Render,Gen_Graphs",
+            "TLC enumerates rendering / permutation variants of one abstract document (Render.tla); each variant generated and imported next to the reference; manifests and bytes compared; TLA+ monitor (Render!Clause)",
+            "~45 documents (single-feature, a feature mix, schema graphs over plain and prefix-related names) x variants {JSON, YAML block, YAML flow, YAML bare numeric keys} x permutations of schemas / paths / properties; models->fields, clients->signatures and the operation set must be equal, pure re-renderings byte-identical",
+            "trusts pyyaml as renderer, import + introspection as manifest, document families free of name collisions",
+            "DESIGN.md section 4 C19"),
+    "C18": ("model_checking", "StreamCore,Stream,StreamFamily,MC_Stream,Gen_Stream,Trace_Stream",
+            "TLC model checking of the incremental decoder Stream.tla (ChunkIndependent over every chunking) + the same (stream, chunking) pairs replayed on the real iter_sse / iter_ndjson / iter_bytes; TLA+ trace monitor",
+            "Stream.tla (UTF-8 carry, pending CR, line / block accumulation, flush) is checked against the whole-stream meaning Events(bytes) for every subset of cut points of streams <=12 bytes and <=2 cuts beyond (162k pairs quick, 2.2M thorough); every pair is replayed on the real helpers over httpx.Response with an async chunk iterator and judged against the unsplit run and the specification",
+            "trusts TLC, httpx.Response(content=async iterator) as chunk source; comment-only SSE blocks are out of scope",
+            "DESIGN.md section 4 C18; docs/C18_NOTES.md"),
+    "C06": ("model_checking", "DispatchCore,Dispatch,MC_Dispatch,Gen_Dispatch,Trace_Dispatch",
+            "TLC model checking of Dispatch.tla (transport contract + generated match statement) over declared-response sets x status classes x transports; every scenario generated and called once per status under the bundled and a pass-through transport; TLA+ trace monitor",
+            "Dispatch.tla mirrors what HttpxTransport raises and what the generated match emits per declared / range / default / catch-all case (as-is variant yields the specification-level counterexamples, fixed variant satisfies the property); 200+ generated packages are called for 15 status representatives (all of 100..599 for a sample; everything in thorough) under both transports and judged by Trace_Dispatch.tla",
+            "trusts TLC, httpx.MockTransport as server, exception class identity by name+module in the emitted package",
+            "DESIGN.md section 4 C06; docs/C06_NOTES.md"),
     "C15": ("exploration", "TextSink,Trace_TextSink",
             "TLC enumerates hostile payloads and the lexical-context transitions they exercise (TextSink.tla); transition-covering payloads placed in every text-bearing position; AST skeleton + literal comparison against a benign baseline; TLA+ monitor",
             "23 text-bearing positions x a payload set covering every transition of the Python lexical-context automaton of TextSink.tla (thorough: all 1110 payloads of length <=3 over 10 hostile classes); each hostile document is generated next to a benign baseline; every emitted file must parse, keep its AST skeleton, and meaningful literals must evaluate to the original text",
